@@ -194,8 +194,9 @@ def _call(acc, o, x_arr, ref, tol, symptom, ctx, mode='oop', kw=None):
     if not same:
         acc.add(o.site, 'returned_object_is_not_out', what)
     if not np.array_equal(x.asarray(), x0):
+        # (what FFTW leaves in a destroyed input is unspecified, so it is not printed)
         acc.add(o.site, 'input_modified',
-                '%s: input %s became %s' % (what, _fmt(x0), _fmt(x.asarray())))
+                '%s: the input element %s holds other values after the call' % (what, _fmt(x0)))
         x = op.domain.element(np.array(x_arr, copy=True))
     if not _differs(got, ref, tol):
         return got
@@ -671,6 +672,14 @@ def _shapes(ndims, sizes):
 
 DBL = ('float64', 'complex128')
 MIXED3 = ([4, 5, 3], [3, 2, 5])
+MIXED3_T = ([4, 5, 3], [3, 2, 5], [2, 5, 4], [5, 2, 3])
+
+
+def _core3(shape):
+    """3-d shapes that get the full option product in the thorough tier: {2,3}^3, {4,5}^3 (every
+    per-axis parity pattern, degenerate and generic lengths) and four mixed shapes; pre- and
+    post-processing are separable per axis, so other mixtures add little."""
+    return max(shape) <= 3 or min(shape) >= 4 or shape in MIXED3_T
 
 
 def _variants(dtypes):
@@ -706,7 +715,7 @@ def _cfg_dft(tier):
         single = thorough or shape in ([2, 3], [4, 5], [5, 3], [4, 4])
         emit(shape, DTYPES if single else DBL, thorough)
     for shape in _shapes((3,), SIZES if thorough else (2, 3)):
-        emit(shape, DTYPES if thorough else DBL, thorough and max(shape) <= 3)
+        emit(shape, DTYPES if (thorough and _core3(shape)) else DBL, thorough and max(shape) <= 3)
     if not thorough:
         for shape in MIXED3:
             emit(shape, DBL, False)
@@ -759,7 +768,9 @@ def _cfg_ft(tier):
         for shape in _shapes((1, 2), SIZES):
             emit(shape, DTYPES, ('none', 'create', 'ctor'))
         for shape in _shapes((3,), SIZES):
-            full = max(shape) <= 3 or shape in MIXED3
+            if not _core3(shape):
+                continue
+            full = max(shape) <= 3 or shape in MIXED3_T
             emit(shape, DTYPES if full else DBL, ('none', 'create') if full else ('none',))
     else:
         for shape in _shapes((1,), SIZES):
@@ -884,14 +895,16 @@ def meta(tier):
                 'executed-line signature of the anchored functions)',
         'bounds': {
             'dft': 'ndim 1-2: sizes {2,3,4,5}^ndim; ndim 3: '
-                   + ('{2,3,4,5}^3' if thorough else '{2,3}^3 + 3 mixed shapes')
+                   + ('{2,3,4,5}^3 (single precision on {2,3}^3, {4,5}^3 and 4 mixed shapes)'
+                      if thorough else '{2,3}^3 + 2 mixed shapes')
                    + '; every non-empty axes subset; f32/f64/c64/c128; halfcomplex; sign; '
                      'numpy/pyfftw; pyfftw default (FFTW_MEASURE) and FFTW_ESTIMATE flags; '
                      'out-of-place, out=, .inverse, init_fftw_plan',
             'hist': 'pyfftw, all histories of length 3 over {%s}' % (HIST_ACTIONS if thorough
                                                                      else 'son'),
-            'ft': 'same sizes (3-d: ' + ('all, reduced dtypes/temporaries for max size > 3'
-                                          if thorough else '2 shapes') + ') x per-axis shift x '
+            'ft': 'same sizes (3-d: ' + ('{2,3}^3, {4,5}^3 (double precision, no temporaries) and 4 '
+                                          'mixed shapes' if thorough else '2 shapes')
+                  + ') x per-axis shift x '
                   'temporaries ' + ("{none, create_temporaries, ctor tmp_r/tmp_f}" if thorough
                                     else '{none, create_temporaries}'),
             'gauss': {'n_1d': GAUSS_N, 'n_2d': GAUSS_N2 if thorough else None,
